@@ -11,26 +11,41 @@ export GOFLAGS=-mod=mod GOPROXY=off GOSUMDB=off GOTOOLCHAIN=local
 export VERIF_DIR=/verif
 cd /verif/harness || exit 2
 mkdir -p /verif/bin /verif/evidence
-cp /repo/go.sum go.sum
+# VERIF_REPO (default /repo) lets the same check run against a scratch worktree (used only when trying
+# seeded changes side by side; registered commands always run against /repo). Binaries and evidence of such
+# runs go to a private directory so that they never mix with runs against /repo.
+REPO="${VERIF_REPO:-/repo}"
+MODFLAG=""
+BIN=/verif/bin
+if [ "$REPO" != "/repo" ]; then
+  tag=$(echo "$REPO" | tr -c 'A-Za-z0-9' '_')
+  BIN=/verif/bin/alt/$tag; mkdir -p "$BIN"
+  sed "s#=> /repo#=> $REPO#" go.mod > "$BIN/go.mod"; cp "$REPO/go.sum" "$BIN/go.sum"
+  MODFLAG="-modfile=$BIN/go.mod"
+  export VERIF_EVIDENCE_DIR="$BIN/evidence" VERIF_REPLAY_DIR="$BIN/replay"
+else
+  cp /repo/go.sum go.sum
+fi
 build_log=$(mktemp)
 trap 'rm -f "$build_log"' EXIT
-if ! go build -tags verif -o /verif/bin/$id ./cmd/$id >"$build_log" 2>&1; then
+if ! go build $MODFLAG -tags verif -o $BIN/$id ./cmd/$id >"$build_log" 2>&1; then
   echo "BUILD-FAILED harness for $ID against /repo's working tree:"; cat "$build_log"; exit 2
 fi
 # the CLI, rebuilt from the working tree (per-property output path: checks may run side by side)
-if ! (cd /repo && go build -tags verif -o /verif/bin/coca-$id . ) >"$build_log" 2>&1; then
+if ! (cd "$REPO" && go build -tags verif -o $BIN/coca-$id . ) >"$build_log" 2>&1; then
   echo "BUILD-FAILED coca CLI from /repo's working tree:"; cat "$build_log"; exit 2
 fi
-export VERIF_COCA=/verif/bin/coca-$id
-export VERIF_BIN=/verif/bin
+export VERIF_COCA=$BIN/coca-$id
+export VERIF_BIN=$BIN
+export VERIF_REPO_DIR="$REPO"
 case "$ID" in
   C16)
-    if ! (cd /repo && go build -race -tags verif -o /verif/bin/coca-race . ) >"$build_log" 2>&1; then
+    if ! (cd "$REPO" && go build -race -tags verif -o $BIN/coca-race . ) >"$build_log" 2>&1; then
       echo "BUILD-FAILED coca -race:"; cat "$build_log"; exit 2
     fi ;;
   C19)
-    (cd /repo && go build -tags verif -o /verif/bin/coca-dep ./analysis/dep ) >"$build_log" 2>&1 || { echo "BUILD-FAILED dep main"; cat "$build_log"; exit 2; } ;;
+    (cd "$REPO" && go build -tags verif -o $BIN/coca-dep ./analysis/dep ) >"$build_log" 2>&1 || { echo "BUILD-FAILED dep main"; cat "$build_log"; exit 2; } ;;
   C20)
-    (cd /repo && go build -tags verif -o /verif/bin/coca-golang ./analysis/golang && go build -tags verif -o /verif/bin/coca-python ./analysis/python ) >"$build_log" 2>&1 || { echo "BUILD-FAILED go/python mains"; cat "$build_log"; exit 2; } ;;
+    (cd "$REPO" && go build -tags verif -o $BIN/coca-golang ./analysis/golang && go build -tags verif -o $BIN/coca-python ./analysis/python ) >"$build_log" 2>&1 || { echo "BUILD-FAILED go/python mains"; cat "$build_log"; exit 2; } ;;
 esac
-exec /verif/bin/$id --tier "$TIER" "$@"
+exec $BIN/$id --tier "$TIER" "$@"
